@@ -34,11 +34,17 @@ def spec_merge(default, override):
     return [(k, v) for k, v in default if k.lower() not in keys] + override
 
 
+def auth_host(host):
+    """host inside an authority: IP-literals (anything with ':') bracketed"""
+    return b"[" + host + b"]" if b":" in host and not host.startswith(b"[") else host
+
+
 def spec_include(headers, scheme, host, port, content):
     DEF = {b"ftp": 21, b"http": 80, b"https": 443, b"ws": 80, b"wss": 443}
     names = {k.lower() for k, _ in headers}
     out = list(headers)
     if b"host" not in names:
+        host = auth_host(host)
         hv = host if (port is None or port == DEF.get(scheme)) else host + b":" + str(port).encode()
         out = [(b"Host", hv)] + out
     if content is not None and b"content-length" not in names and b"transfer-encoding" not in names:
@@ -161,12 +167,13 @@ def check_include(rnd, model, tree):
         h = gen_headers(rnd)
         scheme = rnd.choice([b"http", b"https", b"ws", b"wss", b"ftp"])
         port = rnd.choice([None, 80, 443, 21, 8080, 0])
-        url = httpcore.URL(scheme=scheme, host=b"example.com", port=port, target=b"/")
+        host = rnd.choice([b"example.com", b"::1", b"2001:db8::1", b"127.0.0.1", b"[::1]"])
+        url = httpcore.URL(scheme=scheme, host=host, port=port, target=b"/")
         content = rnd.choice([None, b"", b"abc", iter([b"x"])])
         got = _models.include_request_headers(list(h), url=url, content=content)
-        exp = spec_include(h, scheme, b"example.com", port, content)
+        exp = spec_include(h, scheme, host, port, content)
         if got != exp:
-            raise Fail({"headers": repr(h), "scheme": scheme.decode(), "port": port, "content": repr(content)}, f"-> {got!r}, spec {exp!r}")
+            raise Fail({"headers": repr(h), "scheme": scheme.decode(), "host": host.decode(), "port": port, "content": repr(content)}, f"-> {got!r}, spec {exp!r}")
 
 
 def check_url(rnd, model, tree):
@@ -204,12 +211,21 @@ def check_origin_eq(rnd, model, tree):
 
 def check_url_bytes(rnd, model, tree):
     for scheme in (b"http", b"https"):
-        for port in (None, 80, 8080):
-            for target in (b"/", b"/a?b", b"*"):
-                u = httpcore.URL(scheme=scheme, host=b"h.example", port=port, target=target)
-                exp = scheme + b"://h.example" + (b"" if port is None else b":" + str(port).encode()) + target
-                if bytes(u) != exp:
-                    raise Fail({"scheme": scheme.decode(), "port": port, "target": target.decode()}, f"bytes(URL) {bytes(u)!r} != {exp!r}")
+        for host in (b"h.example", b"::1", b"2001:db8::1", b"[::1]", b"127.0.0.1"):
+            for port in (None, 80, 8080):
+                for target in (b"/", b"/a?b", b"*"):
+                    u = httpcore.URL(scheme=scheme, host=host, port=port, target=target)
+                    exp = scheme + b"://" + auth_host(host) + (b"" if port is None else b":" + str(port).encode()) + target
+                    inp = {"scheme": scheme.decode(), "host": host.decode(), "port": port, "target": target.decode()}
+                    if bytes(u) != exp:
+                        raise Fail(inp, f"bytes(URL) {bytes(u)!r} != {exp!r}")
+                    if target.startswith(b"/") and not host.startswith(b"["):
+                        try:
+                            back = httpcore.URL(bytes(u))
+                        except Exception as e:  # noqa: BLE001
+                            raise Fail(inp, f"URL(bytes(u)) raised {type(e).__name__}: {e}")
+                        if back != u:
+                            raise Fail(inp, f"URL(bytes(u)) = {back!r} != {u!r}")
 
 
 def check_backoff(rnd, model, tree):
